@@ -169,7 +169,7 @@ def check_backend(ctx, be, purpose):
                 touches = payload_slices(data)[0] or payload_slices(data)[1]
                 if touches and ver_idx is None:
                     probs4.append(f"in-place decryption ({e['name'][:60]}) before any verification")
-            if e["kind"] == "copy" and ver_idx is None:
+            if e["kind"] == "copy" and ver_idx is None and _targets_payload(e.get("target")):
                 probs4.append("copy into the payload before any verification")
         if p.kind == "return" and p.okness is not False and ver_idx is None:
             probs4.append("an Ok exit is reachable without a verification")
@@ -285,6 +285,19 @@ def check_manifest_features(ctx, DENY=None, rule="R02.9", key="C02/R02.9/manifes
             if (d, ft) in enabled:
                 bad.append(f"{os.path.relpath(mf, repo)} enables {d}/{ft}: {why}")
     ctx.add(rule, key, nman >= 8 and not bad, "; ".join(bad) or ("" if nman >= 8 else f"only {nman} manifests found"), None, {"manifests": nman})
+
+def _targets_payload(loc):
+    """The written location is (a region of) the caller's payload buffer — not a local scratch array."""
+    seen = 0
+    while isinstance(loc, tuple) and loc and seen < 8:
+        if loc[0] == "P":
+            return len(loc) > 2 and loc[2] == "payload"
+        if loc[0] in ("R", "R?", "V", "F", "IDX", "D") and len(loc) > 1:
+            loc = loc[1]
+            seen += 1
+            continue
+        return False
+    return True      # unknown target: stay conservative
 
 def run(ctx):
     for be in BACKENDS:
